@@ -396,6 +396,102 @@ def b_subsets(ctx):
         shutil.rmtree(tmp, ignore_errors=True)
 
 
+def _build_raw_bsp(path, lumps, versions, compressed, l4d2, revision=7):
+    """A BSP written by hand (no library writer): header in the standard or the L4D2 field order, the given lumps
+    optionally stored LZMA-compressed (fourCC field = uncompressed size)."""
+    import struct
+    from srctools.binformat import compress_lzma
+    from srctools.bsp import BSP_LUMPS
+    header_size = 8 + 16 * 64 + 4
+    pos = header_size
+    table, blobs = [], []
+    for ind in range(64):
+        lump = BSP_LUMPS(ind)
+        raw = lumps.get(lump, b'')
+        if lump in compressed and raw:
+            disk, fourcc = compress_lzma(raw), len(raw)
+        else:
+            disk, fourcc = raw, 0
+        ver = versions.get(lump, 0)
+        table.append((ver, pos, len(disk), fourcc) if l4d2 else (pos, len(disk), ver, fourcc))
+        blobs.append(disk)
+        pos += len(disk)
+        pad = (-pos) % 4
+        blobs.append(b'\0' * pad)
+        pos += pad
+    with open(path, 'wb') as f:
+        f.write(struct.pack('<4si', b'VBSP', 21 if l4d2 else 20))
+        for entry in table:
+            f.write(struct.pack('<4i', *entry))
+        f.write(struct.pack('<i', revision))
+        f.write(b''.join(blobs))
+
+
+def _layout_snapshot(bsp):
+    from srctools.bsp import BSP_LUMPS
+    return {'version': str(bsp.version), 'game_ver': str(bsp.game_ver), 'revision': bsp.map_revision,
+            'lumps': {l.type.name: (l.version, bool(l.is_compressed), bytes(l.data)) for l in bsp.lumps.values()
+                      if l.type is not BSP_LUMPS.GAME_LUMP}}
+
+
+def _layout_job(job):
+    l4d2, which = job
+    from contracts import bsp_support as S
+    from srctools.bsp import BSP, BSP_LUMPS
+    repo = os.environ.get('VERIF_REPO', '/repo')
+    tmp = tempfile.mkdtemp(prefix='c10l_')
+    try:
+        src = S.open_sample(repo)
+        lumps = {l.type: bytes(l.data) for l in src.lumps.values() if l.type is not BSP_LUMPS.GAME_LUMP and l.data}
+        versions = {l.type: l.version for l in src.lumps.values()}
+        names = sorted(lumps, key=lambda t: t.value)
+        lumps[BSP_LUMPS.GAME_LUMP] = bytes(4)      # an empty game-lump directory (its entries hold absolute offsets)
+        compressed = set() if which == 'none' else (set(names[::2]) if which == 'some' else set(names))
+        compressed.discard(BSP_LUMPS.PAKFILE)
+        path = os.path.join(tmp, 'in.bsp')
+        _build_raw_bsp(path, lumps, versions, compressed, l4d2)
+        first = BSP(path)
+        snap0 = _layout_snapshot(first)
+        for t in names:
+            if snap0['lumps'][t.name][2] != lumps[t]:
+                return f'hand-written input: lump {t.name} does not read back as written (harness or reader)'
+        out = os.path.join(tmp, 'out.bsp')
+        first.save(out)
+        snap1 = _layout_snapshot(BSP(out))
+        if snap1 != snap0:
+            for name in snap0['lumps']:
+                if snap0['lumps'][name] != snap1['lumps'].get(name):
+                    a, b = snap0['lumps'][name], snap1['lumps'].get(name)
+                    return (f'lump {name}: (version, compressed, {len(a[2])} bytes) = {a[:2]} became '
+                            f'{b[:2] if b else None} with {len(b[2]) if b else 0} bytes after read -> save -> read')
+            return f'header changed: {[snap0[k] for k in ("version", "game_ver", "revision")]} -> ' \
+                   f'{[snap1[k] for k in ("version", "game_ver", "revision")]}'
+        out2 = os.path.join(tmp, 'out2.bsp')
+        BSP(out).save(out2)
+        if _layout_snapshot(BSP(out2)) != snap1:
+            return 'a second save changed the lumps'
+        return None
+    except Exception as e:
+        return f'{type(e).__name__}: {e}'
+    finally:
+        shutil.rmtree(tmp, ignore_errors=True)
+
+
+@bounded('C10.B-layouts', bound='the sample map re-encoded by hand with the standard and the L4D2 header field order, with '
+         'none / every second / all lumps stored LZMA-compressed; plain read -> save -> read -> save -> read',
+         rule='one case per (layout, compression) variant')
+def b_layouts(ctx):
+    os.environ['VERIF_REPO'] = ctx.repo
+    jobs = [(l4d2, which) for l4d2 in (False, True) for which in ('none', 'some', 'all')]
+    for job, bad in ctx.pmap(_layout_job, jobs, job_timeout=120.0):
+        ctx.case(job)
+        if bad:
+            ctx.violation(f'layout={"l4d2" if job[0] else "standard"}.{job[1]}', bad, list(job))
+
+
+b_layouts.replay = lambda inp: (lambda r: {'failed': bool(r), 'observation': r})(_layout_job(tuple(inp)))
+
+
 def _replay_subset(inp):
     from contracts import bsp_support as S
     repo = os.environ.get('VERIF_REPO', '/repo')
@@ -410,7 +506,7 @@ def _replay_subset(inp):
 
 
 b_subsets.replay = _replay_subset
-BOUNDED = [b_subsets]
+BOUNDED = [b_subsets, b_layouts]
 
 MUTATIONS = [
     dict(name='order_texinfo_before_overlays', file='bsp.py',
